@@ -73,8 +73,8 @@ var c07Witnesses = []c07Witness{
 func c07Harvest() []string {
 	seen := map[string]bool{}
 	var out []string
-	files, _ := filepath.Glob("/repo/*_test.go")
-	more, _ := filepath.Glob("/repo/syntax/*_test.go")
+	files, _ := filepath.Glob(repoPath()+"/*_test.go")
+	more, _ := filepath.Glob(repoPath()+"/syntax/*_test.go")
 	files = append(files, more...)
 	sort.Strings(files)
 	fset := token.NewFileSet()
